@@ -196,7 +196,7 @@ def lean_stage(prop_modules, extra_targets=()):
         finally:
             os.unlink(tf.name)
         res.log += r.stdout + r.stderr
-        for m in re.finditer(r"THEOREM (\S+) AXIOMS \[(.*?)\]", r.stdout):
+        for m in re.finditer(r"THEOREM (\S+) AXIOMS \[(.*?)\]", r.stdout, re.S):  # re.S: long names wrap the axiom list
             axs = [a.strip() for a in m.group(2).split(",") if a.strip()]
             res.theorems[m.group(1)] = axs
             bad = [a for a in axs if a not in ALLOWED_AXIOMS]
